@@ -1,8 +1,8 @@
 package main
 
 import (
-	"go/token"
 	"fmt"
+	"go/token"
 	"go/types"
 	"strings"
 
@@ -80,14 +80,14 @@ func runC04(c *Ctx) {
 	stmtAlloc := c.Anchor("O1", pkgFw, "Statement", "Allocate")
 	stmtPipe := c.Anchor("O1", pkgFw, "Statement", "Pipeline")
 	allowed := map[string]string{
-		"pkg/scheduler/actions/common.bindTaskToNode":                           "reached only from allocateTaskToNode",
-		"pkg/scheduler/actions/common.pipelineTaskToNode":                       "reached only from allocateTaskToNode",
-		"pkg/scheduler/gpu_sharing.allocateSharedGPUTask":                       "reached only from AllocateFractionalGPUTaskToNode, itself called by allocateTaskToNode",
-		"(*pkg/scheduler/framework.Statement).ConvertAllAllocatedToPipelined":   "re-labels placements already made on the same nodes",
-		"(*pkg/scheduler/framework.Statement).undoOperation":                    "redo/undo of a recorded operation on its recorded node",
-		"(*pkg/scheduler/framework.Statement).Rollback":                         "redo/undo of a recorded operation on its recorded node",
-		"(*pkg/scheduler/framework.Statement).undoEvict":                        "restores a task to the node it was evicted from",
-		"(*pkg/scheduler/framework.Statement).unevict":                          "restores a task to the node it was evicted from",
+		"pkg/scheduler/actions/common.bindTaskToNode":                         "reached only from allocateTaskToNode",
+		"pkg/scheduler/actions/common.pipelineTaskToNode":                     "reached only from allocateTaskToNode",
+		"pkg/scheduler/gpu_sharing.allocateSharedGPUTask":                     "reached only from AllocateFractionalGPUTaskToNode, itself called by allocateTaskToNode",
+		"(*pkg/scheduler/framework.Statement).ConvertAllAllocatedToPipelined": "re-labels placements already made on the same nodes",
+		"(*pkg/scheduler/framework.Statement).undoOperation":                  "redo/undo of a recorded operation on its recorded node",
+		"(*pkg/scheduler/framework.Statement).Rollback":                       "redo/undo of a recorded operation on its recorded node",
+		"(*pkg/scheduler/framework.Statement).undoEvict":                      "restores a task to the node it was evicted from",
+		"(*pkg/scheduler/framework.Statement).unevict":                        "restores a task to the node it was evicted from",
 	}
 	for _, target := range []*ssa.Function{stmtAlloc, stmtPipe} {
 		if target == nil {
@@ -247,7 +247,9 @@ func runC04(c *Ctx) {
 			if call, isCall := mu.Value.(*ssa.Call); isCall {
 				// the stand-in for a plugin that is not initialised
 				_, nilPlugin := hasFact(fx.FactsAt(in), func(f Fact) bool {
-					return factNilTerm(f, true, func(t *Term) bool { return t.Op == "field" && t.Args[0].Op == "call" && strings.HasSuffix(t.Args[0].Name, "InternalK8sPlugins") })
+					return factNilTerm(f, true, func(t *Term) bool {
+						return t.Op == "field" && t.Args[0].Op == "call" && strings.HasSuffix(t.Args[0].Name, "InternalK8sPlugins")
+					})
 				})
 				c.Check(nilPlugin && calleeOf(call) != nil && calleeOf(call).Name() == "emptyPredicate", "O2", "REG", construct+" (plugin absent)", instrPos(in), "empty predicate only when the upstream plugin is nil", "an always-passing predicate is registered for "+name+" although the upstream plugin exists")
 				continue
@@ -420,14 +422,18 @@ func runC04(c *Ctx) {
 		}
 		excusedIteration := func(fs FactSet) bool {
 			// not a Ready condition …
-			if has(fs, func(f Fact) bool { return isReadyType(f) && ((f.T.Name == "==" && !f.Pol) || (f.T.Name == "!=" && f.Pol)) }) {
+			if has(fs, func(f Fact) bool {
+				return isReadyType(f) && ((f.T.Name == "==" && !f.Pol) || (f.T.Name == "!=" && f.Pol))
+			}) {
 				return true
 			}
 			if has(fs, func(f Fact) bool { return isTypeCmp(f) && !isReadyType(f) && f.T.Name == "==" && f.Pol }) {
 				return true
 			}
 			// … or Ready is True
-			return has(fs, func(f Fact) bool { return isStatusTrue(f) && ((f.T.Name == "==" && f.Pol) || (f.T.Name == "!=" && !f.Pol)) })
+			return has(fs, func(f Fact) bool {
+				return isStatusTrue(f) && ((f.T.Name == "==" && f.Pol) || (f.T.Name == "!=" && !f.Pol))
+			})
 		}
 		okReady, nLoops := true, 0
 		var rpath []int
@@ -530,7 +536,9 @@ func runC04(c *Ctx) {
 			}
 			fs := fx.FactsAt(ret)
 			_, noTopo := hasFact(fs, func(f Fact) bool {
-				return factNilTerm(f, true, func(t *Term) bool { return t.Op == "extract" && t.Name == "0" && isCallNamed(t.Args[0], "getJobTopology") })
+				return factNilTerm(f, true, func(t *Term) bool {
+					return t.Op == "extract" && t.Name == "0" && isCallNamed(t.Args[0], "getJobTopology")
+				})
 			})
 			_, noTasks := hasFact(fs, func(f Fact) bool {
 				return f.Pol && f.T.Op == "bin" && f.T.Name == "==" && strings.Contains(f.T.Args[0].String(), "builtin.len") && f.T.Args[1].String() == "const:0"
@@ -541,7 +549,9 @@ func runC04(c *Ctx) {
 				all := true
 				for _, pf := range fx.pathFactsTo(b, 2) {
 					_, a := hasFact(pf, func(f Fact) bool {
-						return factNilTerm(f, true, func(t *Term) bool { return t.Op == "extract" && t.Name == "0" && isCallNamed(t.Args[0], "getJobTopology") })
+						return factNilTerm(f, true, func(t *Term) bool {
+							return t.Op == "extract" && t.Name == "0" && isCallNamed(t.Args[0], "getJobTopology")
+						})
 					})
 					_, bb := hasFact(pf, func(f Fact) bool {
 						return f.Pol && f.T.Op == "bin" && f.T.Name == "==" && strings.Contains(f.T.Args[0].String(), "builtin.len") && f.T.Args[1].String() == "const:0"
@@ -726,7 +736,9 @@ func runC04(c *Ctx) {
 		for i, rp := range paths {
 			_, act := hasFact(rp.Facts, func(f Fact) bool { return f.Pol && isCallNamed(f.T, "IsActiveAllocatedStatus") })
 			_, in := hasFact(rp.Facts, func(f Fact) bool {
-				return factNilTerm(f, false, func(t *Term) bool { return t.Op == "lookup" && t.Args[0].lastField() == "Nodes" && t.Args[1].lastField() == "NodeName" })
+				return factNilTerm(f, false, func(t *Term) bool {
+					return t.Op == "lookup" && t.Args[0].lastField() == "Nodes" && t.Args[1].lastField() == "NodeName"
+				})
 			})
 			c.Check(act && in, "O6", "RET", fmt.Sprintf("%s: true path#%d needs an active pod whose node is in the domain", funcKey(hp), i), rp.Pos, "IsActiveAllocatedStatus ∧ domain.Nodes[pod.NodeName] != nil", "a domain counts as occupied by the job without an active pod on one of its nodes")
 		}
@@ -875,7 +887,6 @@ func factNilTerm(f Fact, isNil bool, pred func(*Term) bool) bool {
 	}
 	return pred(x)
 }
-
 
 // C04-O8 (PROV): the upstream pre-filters see every node of the snapshot. InterPodAffinity's PreFilter counts the
 // existing pods that match the incoming pod's own required (anti-)affinity terms over the node list it is given;
